@@ -263,10 +263,7 @@ fn c13_t_promotion_full_table_3sym() {
 /// entries on 16 different endpoints): the 17th, uncovered change collapses the table into a
 /// global wildcard - which must carry the NEW change's id, so that the change is pending for a
 /// subscriber that had seen everything before it, and everything older stays pending too.
-#[cfg_attr(kani, kani::proof)]
-#[cfg_attr(kani, kani::unwind(18))]
-#[cfg_attr(not(kani), test)]
-fn c13_q_promotion_global_fallback() {
+fn promotion_global_fallback(e: u16, c: u32, a: u32) {
     let mut t = ChangedAttrs::new();
     let mut next: u64 = 1;
     let mut i: u16 = 0;
@@ -276,7 +273,6 @@ fn c13_q_promotion_global_fallback() {
         i += 1;
     }
     t.next_change_id = next;
-    let (e, c, a) = (any_u16(), any_u32(), any_u32());
     assume(e < 100 && c != WILDCARD_CLUSTER && a != WILDCARD_ATTR);
     let id = t.record(e, c, a);
     vassert!(id == 17 && t.watermark() == 17, "ROLE:change-gets-the-next-id");
@@ -290,6 +286,22 @@ fn c13_q_promotion_global_fallback() {
     assume(since <= k as u64);
     vassert!(t.contains_since(100 + k, 7, 1, since), "ROLE:pending-change-stays-pending-across-record(coalescing keeps the max id)");
     vcover!(t.entries.len() == 1);
+}
+
+/// quick: the new change is concrete (endpoint 5, cluster 9, attribute 2), the older change and
+/// the subscriber's watermark are symbolic (the fully symbolic variant needs > 8 GB: thorough)
+#[cfg_attr(kani, kani::proof)]
+#[cfg_attr(kani, kani::unwind(18))]
+#[cfg_attr(not(kani), test)]
+fn c13_q_promotion_global_fallback() {
+    promotion_global_fallback(5, 9, 2);
+}
+
+#[cfg_attr(kani, kani::proof)]
+#[cfg_attr(kani, kani::unwind(18))]
+#[cfg_attr(not(kani), test)]
+fn c13_t_promotion_global_fallback_any_change() {
+    promotion_global_fallback(any_u16(), any_u32(), any_u32());
 }
 
 /// Report timing (64-bit multiply by TICK_HZ: SMT-exported). `now` and all stamps arbitrary.
